@@ -268,6 +268,9 @@ def seq_restore(r, F):
     st = [b for b in st if backslice(fn, b.term.args[0], "prov").upvars & mir.upvars_from_param(F, fn, 5) or backslice(fn, b.term.args[0], "prov").has_field("sequence")] or st
     if len(st) != 1:
         raise AnchorMissing("RecoverRunner::run: the store on the sequence counter was not found exactly once (%d)" % len(st))
+    errs = [b.idx for b in fn.calls_to(r"FromResidual")] + [b.idx for b in fn.blocks if not b.cleanup for s_ in b.stmts if s_.k == "assign" and s_.rv.k == "agg" and s_.rv.j.get("variant") == "Err"]
+    r.require(fn.must_pass(0, [st[0].idx] + errs), fn, "the counter is restored on every successful recovery", "sequence.store(..) is unconditional (error returns excepted)",
+              "recovery can finish without restoring the sequence counter: the engine restarts numbering below recovered entries, so new writes lose against old ones", ln=st[0].term.ln)
     base, gplus = _strip_add(fn, st[0].term.args[1])
     if base.place is None:
         raise AnchorMissing("RecoverRunner::run: the stored sequence is a constant")
